@@ -116,6 +116,7 @@ class SolverTap:
         self.faults = dict(faults or {})
         self.fired = hist.setdefault('faults_fired', {})
         self.check_mirror = check_mirror
+        self.check_axb = True
         self.tf_ind = None
         self.pattern = None
         self._orig_solve = self.solver.solve
@@ -203,7 +204,19 @@ class SolverTap:
             rec['_stale_done'] = True
             if self._arm_stale():
                 pass
+        b_in = np.ravel(np.array(b, dtype=float)).copy() if self.check_axb else None
         inc = call(A, b)
+        if self.check_axb and kind not in ('reject', 'nan'):
+            # the vector returned for this iteration must solve the matrix handed over in this iteration: a caching back-end
+            # that was not asked to refactorise after the matrix changed returns the solution of an older matrix
+            from kvxopt import matrix as _m
+            x = np.ravel(np.array(inc, dtype=float))
+            if np.all(np.isfinite(x)) and x.shape == b_in.shape:
+                r = np.ravel(np.array(A * _m(x))) - b_in
+                scale = float(np.max(np.abs(b_in))) + 1e-300
+                e = float(np.max(np.abs(r))) / scale if scale > 1e-14 else 0.0
+                if e > rec.get('axb_err', 0.0):
+                    rec['axb_err'] = e
         if kind == 'reject':
             if rec['iters'] == 1:
                 self._fire('reject_step')
